@@ -1043,5 +1043,19 @@ seed("c20-listener-not-recorded", "C20", "R-close-effects", "server.go",
 
 	var tempDelay""", """	var tempDelay""", "Close cannot close the listener Serve accepts on")
 
+seed("c15-ehlo-first-line-is-extension", "C15", "R-ehlo-keys", "client.go",
+"""	if len(extList) > 1 {
+		extList = extList[1:]
+		for""", """	if len(extList) > 0 {
+		for""", "the greeting line (server name) is parsed as an extension keyword")
+seed("c14-ehlo-keys-lower-cased", "C14", "R-ehlo-keys", "client.go",
+"""				ext[args[0]] = args[1]
+			} else {
+				ext[args[0]] = \"\"
+			}""", """				ext[strings.ToLower(args[0])] = args[1]
+			} else {
+				ext[strings.ToLower(args[0])] = \"\"
+			}""", "no upper-case lookup finds an advertised extension: every option is silently dropped")
+
 json.dump(S, open(os.path.join(os.path.dirname(os.path.abspath(__file__)), "bank.json"), "w"), indent=1)
 print(len(S), "seeds")
